@@ -65,6 +65,7 @@ TEnv == /\ More /\ Cur.ev = "env" /\ l' = l + 1
              [] Cur.act = "CliClose" -> CliClose(Cur.c)
              [] Cur.act = "StartShutdown" -> StartShutdown
              [] Cur.act = "TimerFire" -> TimerFire
+             [] Cur.act = "OwnerClose" -> OwnerClose
 
 MaskInv(s) == [i \in 1..Len(s) |-> IF s[i][1] = "inv" THEN <<"inv", 0>> ELSE s[i]]
 
